@@ -26,6 +26,8 @@ var Alphabets = map[string][]string{
 	"like":  {"a", ":", "w*", "a?", "/r/", "(", ")", "OR"},
 	"juxt":  {"a", "b", ":", "(", ")", "NOT", "OR", "-5"},
 	"nf":    {"a", ":", "(", ")", "5", "NOT"},
+	// values that look like format verbs of the implementation language, with the operators that print them
+	"fmt": {"a", ":", `"%d"`, `\%s`, `/%v/`, "^", "~", "2", "(", ")"},
 }
 
 // ByteAlphabets: representatives of every lexer character class / every way to cut a rune.
@@ -33,6 +35,11 @@ var ByteAlphabets = map[string][]string{
 	"lex":  {"a", "5", " ", "\t", "\"", "'", "/", "\\", "-", ":", "(", "*", ".", "!", "é", "\xff", "٣"},
 	"utf8": {"a", "\x00", "\x80", "\xc3", "\xa9", "\xe4", "\xb8", "\xad", "\xf0"},
 	"kw":   {"a", "n", "d", "o", "r", "t", "A", "N", "D", " ", ":"},
+	// escape sequences of bare words next to the characters they protect
+	"esc": {"x", `\\`, `\*`, `\?`, "*", "?", `\/`, "/", `\ `, `\"`},
+	// symbol runes that turn into an ASCII symbol when truncated to a byte (U+26xx: : ( ) ^ ~ " / [ + - blank = * \), folded from
+	// their full-width form, or are white space only to Unicode
+	"alias": {"a", " ", ":", "\u263a", "\u2628", "\u2629", "\u265e", "\u267e", "\u2622", "\u262f", "\u265b", "\u262b", "\u262d", "\u2620", "\u263d", "\u262a", "\u265c", "\uff1a", "\uff08", "\uff09", "\u00a0", "\u2003"},
 }
 
 // SeqUnits splits "all sequences of length <= n over an alphabet of size k" into units: one unit
